@@ -36,7 +36,7 @@ def budget(tier):
 
 
 def gen_case(rng, idx, tier):
-    if idx % 100 == 9:
+    if idx % 101 == 9:
         return {"lane": "pool", "seed": rng.randrange(1 << 30)}
     sched = rng.choice(["slurm", "slurm", "sge", "lsf"])
     dag = gen.gen_dag(rng, max_targets=8, p_noout=0.05)
